@@ -247,16 +247,14 @@ theorem handover_step (y : System) (i : Nat) (s : Svc) (hs : y.svcs[i]? = some s
     | cons a q => rw [hq] at hn; cases hn
   | some n =>
     have hok := (sok_handover s n hk hn).1
-    refine ⟨step s (.deliver 0), rfl, rfl, hok, ?_⟩
-    obtain ⟨_, sn, l0, rest, hl, h1, h2, _, _⟩ := hk
+    refine ⟨handStep s, rfl, rfl, hok, ?_⟩
+    obtain ⟨_, sn, l0, rest, hl, h1, h2, _, _, h5⟩ := hk
     simp only [nextForManager, hl] at hn
     rw [if_pos ⟨h1, h2⟩] at hn
     cases hq : l0.queue with
     | nil => rw [hq] at hn; cases hn
     | cons a q =>
-      have hls : (step s (.deliver 0)).lsns = { l0 with queue := q, seen := l0.seen ++ [a] } :: rest := by
-        simp only [step, hl, deliverTo]
-        rw [if_pos ⟨h1, by simp [h2]⟩, hq]
+      have hls := handStep_lsns s l0 rest a q hl h1 h2 h5 hq
       simp [pendingForManager, hls, hl, hq]
 
 theorem handovers (k : Nat) (y : System) (i : Nat) (s : Svc) (hs : y.svcs[i]? = some s) (hk : SOK s) :
